@@ -163,6 +163,27 @@ var mutants = []Mutant{
 	{"C11-sender-chain-rate", "C11", "module/x/mhub2/keeper/external_event_handler.go", `receiverChainTokenInfo\.Commission\)\.`, "senderChainTokenInfo.Commission).", "C11.commission-form", "cross-chain transfer charged the source chain's rate"},
 	{"C18-first-report-sticks", "C18", "module/x/oracle/keeper/attestation.go", `(func \(k Keeper\) storeClaim\(ctx sdk\.Context, details types\.Claim\) error \{\n)`, "${1}\tif k.HasClaim(ctx, details) {\n\t\treturn types.ErrDuplicate\n\t}\n", "C18.latest", "a validator's second report of an epoch is refused"},
 	{"C20-count-undecodable-edit", "C20", "minter-connector/minter/minter.go", `(\t\t\t\t\t\tctx\.SetLastValsetNonce\(uint64\(nonce\)\)\n)\t\t\t\t\t\tctx\.SetLastEventNonce\(ctx\.LastEventNonce\(\) \+ 1\)\n\t\t\t\t\t\}\n`, "${1}\t\t\t\t\t}\n\t\t\t\t\tctx.SetLastEventNonce(ctx.LastEventNonce() + 1)\n", "C20.counted-iff-valid", "multisig edits with an undecodable payload counted by the resync scan"},
+	// operators added with the rules of the third seeding round
+	{"C02-hook-forgets-cursor", "C02", "module/x/mhub2/keeper/hooks.go", `func \(h Hooks\) AfterValidatorBeginUnbonding\(ctx sdk\.Context, _ sdk\.ConsAddress, _ sdk\.ValAddress\) \{\n`, "func (h Hooks) AfterValidatorBeginUnbonding(ctx sdk.Context, _ sdk.ConsAddress, valAddr sdk.ValAddress) {\n\tfor _, chainId := range h.k.GetChains(ctx) {\n\t\tctx.KVStore(h.k.storeKey).Delete(types.MakeLastEventNonceByValidatorKey(chainId, valAddr))\n\t}\n", "C02.one-vote", "a staking hook deletes the validator's event cursor"},
+	{"C15-import-if-no-nonces", "C15", "module/x/mhub2/keeper/genesis.go", `(\t\tfor _, eventVoteRecord := range externalState\.ExternalEventVoteRecords \{\n)`, "\t\tif len(externalState.Nonces) > 0 {\n\t\t\tcontinue\n\t\t}\n${1}", "C15.faithful-import", "the rest of a chain's import is skipped when explicit nonces are present"},
+	{"C15-export-skips-chain", "C15", "module/x/mhub2/keeper/genesis.go", `(\t\tstate\.ExternalStates = append\(state\.ExternalStates, &types\.ExternalState\{)`, "\t\tif lastobservedvalset == nil {\n\t\t\tcontinue\n\t\t}\n${1}", "C15.export-own-state", "chains without an observed signer set are left out of the export"},
+	{"C04-status-key-lowercase", "C04", "module/x/mhub2/keeper/tx_status.go", `(?s)(import \(\n)(.*?)bytes := store\.Get\(types\.GetTxStatusKey\(inTxHash\)\)`, "${1}\t\"strings\"\n${2}bytes := store.Get(types.GetTxStatusKey(strings.ToLower(inTxHash)))", "C04.key-agreement", "status read under the lower-cased hash, written under the hash as given"},
+	{"C05-recover-asserts-error", "C05", "module/x/mhub2/keeper/external_event_vote.go", `err = sdkerrors\.Wrapf\(types\.ErrInvalid, "panic while applying external event: %v", r\)`, `err = sdkerrors.Wrap(r.(error), "panic while applying external event")`, "C05.contain", "the recover handler type-asserts the panic value"},
+	{"C06-sort-by-derived-key", "C06", "module/x/mhub2/abci.go", `sort\.Strings\(ids\)`, `sort.Slice(ids, func(i, j int) bool { return len(ids[i]) < len(ids[j]) })`, "C06.map-range", "token ids collected from a map sorted by a derived key"},
+	{"C04-sequence-value-receiver", "C04", "module/x/mhub2/types/outgoing_tx.go", `func \(sstx \*SignerSetTx\) SetSequence\(seq uint64\) \{\n\tsstx\.Sequence = seq`, "func (sstx SignerSetTx) SetSequence(seq uint64) {\n\tsstx.Sequence = seq", "C04.value-semantics", "SetSequence assigns to a copy"},
+	{"C08-stale-keeper-copy", "C08", "module/x/mhub2/keeper/keeper.go", `\tk\.StakingKeeper = keeper\n(\tk\.ExternalEventProcessor = ExternalEventProcessor\{\n\t\tkeeper:     k,\n\t\tbankKeeper: k\.bankKeeper,\n\t\}\n)`, "${1}\tk.StakingKeeper = keeper\n", "C08.value-semantics", "the event processor copies the keeper before the staking keeper is wired"},
+	{"C09-latest-is-last-of-reverse", "C09", "module/x/mhub2/keeper/keeper.go", `(func \(k Keeper\) GetLatestSignerSetTx\(ctx sdk\.Context, chainId types\.ChainID\) \*types\.SignerSetTx \{\n)`, "${1}\tif all := k.GetSignerSetTxs(ctx, chainId); len(all) > 0 {\n\t\treturn all[len(all)-1]\n\t}\n", "C09.freshness-trigger", "the oldest retained set served as the latest"},
+	{"C16-unsigned-skips-timed-out", "C16", "module/x/mhub2/keeper/grpc_query.go", `(func \(k Keeper\) UnsignedBatchTxs\((?s:.*?)func\(_ \[\]byte, otx types\.OutgoingTx\) bool \{\n)`, "${1}\t\tif otx.GetCosmosHeight() == 0 {\n\t\t\treturn false\n\t\t}\n", "C16.key-schema", "unsigned batches filtered by something other than the signature"},
+	{"C13-executed-scan-stops", "C13", "module/x/mhub2/keeper/batch.go", `(if \(btx\.BatchNonce < batchTx\.BatchNonce\) && \(btx\.ExternalTokenId == batchTx\.ExternalTokenId\) \{)`, "if btx.ExternalTokenId != batchTx.ExternalTokenId {\n\t\t\t\treturn true\n\t\t\t}\n\t\t\t${1}", "C13.older-same-token", "the scan for older batches stops at another token's batch"},
+	{"C12-sweep-every-second-block", "C12", "module/x/mhub2/abci.go", `if ctx\.BlockHeight\(\)%1 == 0 \{`, "if ctx.BlockHeight()%2 == 0 {", "C12.expiry", "expiry sweep on even blocks only"},
+	{"C14-batch-hash-nonce-first", "C14", "module/x/mhub2/types/external_event.go", `(\t\t\t)\[\]byte\(bee\.ExternalCoinId\), // todo: check length \?\n\t\t\tsdk\.Uint64ToBigEndian\(bee\.EventNonce\),\n`, "${1}sdk.Uint64ToBigEndian(bee.EventNonce),\n\t\t\t[]byte(bee.ExternalCoinId),\n", "C14.injective", "batch-executed hash gets the layout of the contract-call hash"},
+	{"C17-prefix-scan-breaks", "C17", "module/x/mhub2/keeper/keeper.go", `(ethBs := bytes\.TrimPrefix\(iter\.Key\(\), \[\]byte\{types\.ExternalOrchestratorAddressKey\}\)\n\t\t\tif !bytes\.HasPrefix\(ethBs, chainId\.Bytes\(\)\) \{\n\t\t\t\t)continue`, "${1}break", "C17.guards", "orchestrator in-use scan stops at another chain's entry"},
+	{"C18-found-flag-outside", "C18", "module/x/oracle/keeper/msg_server.go", `(\tfor _, requiredPrice := range requiredPrices \{\n)\t\tfound := false\n`, "\tfound := false\n${1}", "C18.complete-report", "found flag not reset per required price"},
+	{"C18-normalised-rounded", "C18", "module/x/oracle/keeper/keeper.go", `MulUint64\(math\.MaxUint16\)\.QuoUint64\(totalPower\)`, "MulUint64(math.MaxUint16).AddUint64(totalPower / 2).QuoUint64(totalPower)", "C18.complete-report", "normalised powers rounded to nearest"},
+	{"C19-record-write-once", "C19", "module/x/mhub2/keeper/tx_fee_record.go", `(func \(k Keeper\) SetTxFeeRecord\([^\n]*\n)`, "${1}\tif ctx.KVStore(k.storeKey).Has(types.GetTxFeeRecordKey(inTxHash)) {\n\t\treturn\n\t}\n", "C19.record-overwrite", "fee record written once only"},
+	{"C20-retry-skips-first-window", "C20", "minter-connector/minter/minter.go", `(\t\t\ttime\.Sleep\(time\.Second\)\n)\t\t\ti--\n`, "${1}\t\t\tif i > 0 {\n\t\t\t\ti--\n\t\t\t}\n", "C20.cursor", "window 0 is not retried after an API error"},
+	{"C20-recipient-normalised-first", "C20", "minter-connector/command/command.go", `(\t\tif !common\.IsHexAddress\(cmd\.Recipient\) \{\n\t\t\treturn errors\.New\("wrong recipient"\)\n\t\t\}\n)(\t\tcmd\.Recipient = common\.HexToAddress\(cmd\.Recipient\)\.Hex\(\)\n)`, "${2}${1}", "C20.validate", "recipient normalised before it is checked"},
+	{"C17-listing-by-position", "C17", "module/x/mhub2/keeper/keeper.go", `msg\.OrchestratorAddress = k\.GetExternalOrchestratorAddress\(ctx, chainId, common\.HexToAddress\(msg\.ExternalAddress\)\)\.String\(\)`, "msg.OrchestratorAddress = k.GetExternalOrchestratorAddress(ctx, chainId, common.HexToAddress(out[0].ExternalAddress)).String()", "C17.triple", "listed orchestrators looked up under another entry's address"},
 	{"C20-count-invalid", "C20", "minter-connector/minter/minter.go", `if cmd\.ValidateAndComplete\(value\) == nil \{`, `if cmd.ValidateAndComplete(value) == nil || true {`, "C20.counted-iff-valid", "invalid commands counted by the resync scan"},
 }
 
